@@ -496,6 +496,12 @@ fn exec_zst(plus: usize, spec: &RngSpec, obs: &mut Obs) -> Vec<Violation> {
 
 fn exec_gen(kind: GenKind, size: usize, inner: usize, by_ref: bool, spec: &RngSpec, obs: &mut Obs) -> Vec<Violation> {
     let mut rng = spec.build();
+    if size > 100_000 {
+        // (the per-operation draw cap of the owned stream exists to catch starved rejection samplers; a huge
+        // requested collection legitimately draws a lot)
+        rng.set_cap(8 * size as u64 + 1_000_000);
+        obs.hit("probe.collection-larger-than-100k");
+    }
     let probe = Probe::new();
     let site = format!("{kind:?}{}", if by_ref { "/to_collection_generator" } else { "/Generator::new" });
     // returns (element count, flattened observed serials or bools, extra check message)
@@ -721,7 +727,16 @@ impl Check for C18 {
                     3 if g.chance(1, 100) => {
                         let pool = [63usize, 64, 65, 127, 128, 129, 255, 256, 257, 511, 512, 1023, 1024, 1025, 2047, 2048, 2049, 4096, 8192];
                         let big = [65_535usize, 65_536, 65_537];
-                        let s = if g.chance(1, 8) { *g.pick(&big) } else if g.coin() { *g.pick(&pool) } else { g.log_uniform(65, 70_000) };
+                        let s = if g.chance(1, 8) {
+                            *g.pick(&big)
+                        } else if g.chance(1, 25) {
+                            // megabyte-sized collections (a "cautious preallocation" cap must not truncate them)
+                            g.log_uniform(70_001, 2_500_000)
+                        } else if g.coin() {
+                            *g.pick(&pool)
+                        } else {
+                            g.log_uniform(65, 70_000)
+                        };
                         if nested { s.min(1100) } else { s }
                     }
                     _ => g.urange(0, if nested { 8 } else { 64 }),
